@@ -7,6 +7,8 @@ import (
 	"github.com/smartcontractkit/libocr/offchainreporting2plus/ocr3types"
 	"github.com/smartcontractkit/libocr/offchainreporting2plus/types"
 
+	"github.com/smartcontractkit/chainlink-ccip/internal/plugincommon"
+	dt "github.com/smartcontractkit/chainlink-ccip/internal/plugincommon/discovery/discoverytypes"
 	cciptypes "github.com/smartcontractkit/chainlink-ccip/pkg/types/ccipocr3"
 )
 
@@ -62,6 +64,16 @@ func (p *Plugin) ValidateObservation(
 	err = p.chainFeeProcessor.ValidateObservation(prevOutcome.ChainFeeOutcome, decodedQ.ChainFeeQuery, gasObs)
 	if err != nil {
 		return fmt.Errorf("validate chain fee observation: %w", err)
+	}
+
+	if p.discoveryProcessor != nil {
+		discoveryObs := plugincommon.AttributedObservation[dt.Observation]{
+			OracleID:    ao.Observer,
+			Observation: obs.DiscoveryObs,
+		}
+		if err := p.discoveryProcessor.ValidateObservation(dt.Outcome{}, dt.Query{}, discoveryObs); err != nil {
+			return fmt.Errorf("validate discovery observation: %w", err)
+		}
 	}
 
 	return nil
